@@ -167,7 +167,7 @@ Section Sized.
   (** fields of an item: the [Box] flag is the registry's, the by-value nodes are bounded by the
       rank of the field's type id *)
   Definition field_bv (fs : list field) (fi : field_ir) : Prop :=
-    exists f0, In f0 fs /\ fi_boxed fi = is_boxed f0 /\ node_bv (rank (f_ty f0)) (fi_path fi).
+    exists f0, In f0 fs /\ fi_boxed fi = is_boxed_gen f0 /\ node_bv (rank (f_ty f0)) (fi_path fi).
 
   Lemma field_ir_of_bv params f fi : field_ir_of r s params f = Ok fi -> field_bv [f] fi.
   Proof.
